@@ -130,6 +130,7 @@ func verifLemmaLetterOfIndex(letters string, cased bool, l Letter) (r int, ok bo
 //@   ensures [ok]         result1 == nil ==> forall b int :: 0 <= b && b < 256 ==> (result0.ok[b] <==> inStr(s, b))
 //@   ensures [pairs]      result1 == nil ==> forall b int :: 0 <= b && b < 256 && result0.ok[b] ==> exists k int :: 0 <= k && k < len(s) && s[k] == b && result0.pair[b] == c[k]
 //@   ensures [ascii-tab]  result1 == nil ==> forall b int :: 0 <= b && b < 128 ==> result0.pair[b] < 128
+//@   ensures [function]   result1 == nil ==> forall k int :: 0 <= k && k < len(s) ==> result0.pair[s[k]] == c[k]
 //@   assigns fresh
 //@   loop 1 invariant 0 <= idx && idx <= 256 && len(p.pair) == 256 && len(p.ok) == 256 && arr(p.pair) != arr(p.ok) && fresh(p) && fresh(p.pair) && fresh(p.ok)
 //@   loop 1 invariant forall k int :: 0 <= k && k < idx ==> p.pair[k] == k
@@ -143,6 +144,7 @@ func verifLemmaLetterOfIndex(letters string, cased bool, l Letter) (r int, ok bo
 //@   loop 2 invariant forall b int :: 0 <= b && b < 256 && p.ok[b] ==> exists k int :: 0 <= k && k < idx && s[k] == b && p.pair[b] == c[k]
 //@   loop 3 invariant 0 <= idx && idx <= len(s)
 //@   loop 3 invariant forall k int :: 0 <= k && k < idx ==> p.pair[p.pair[s[k]]] == s[k]
+//@   loop 3 invariant [function] forall k int :: 0 <= k && k < idx ==> p.pair[s[k]] == c[k]
 //@   loop 4 invariant 0 <= idx && idx <= 256
 //@   loop 4 invariant forall k int :: 0 <= k && k < idx ==> p.complements[k] == (p.ok[k] ? p.pair[k] : (p.pair[k] < 128 ? p.pair[k] + 128 : p.pair[k]))
 //@   loop 4 invariant forall k int :: idx <= k && k < 256 ==> p.complements[k] == p.pair[k]
